@@ -132,8 +132,13 @@ def decode_request(ctx, rawbytes):
         return msg, None, problems
     usm = msg["usm"]
     if usm["engine_id"] == b"" and usm["user"] == b"":
+        # msgMaxSize is the CLIENT's own receive limit: what it said before it knew
+        # anything about the agent is what it has to keep saying
+        ctx.__dict__.setdefault("probe_max_size", msg["max_size"])
         return msg, "discovery", problems
     agent = ctx.w.agent
+    if ctx.__dict__.get("probe_max_size") is not None and msg["max_size"] != ctx.probe_max_size:
+        problems.append("msgMaxSize %d, this client announced %d in its discovery probe (the agent announces %d)" % (msg["max_size"], ctx.probe_max_size, agent.max_size))
     want_flags = {"v3-noauth": 0}.get(level, 3 if level.endswith("-priv") else 1)
     if msg["flags"] & 3 != want_flags:
         problems.append("msgFlags auth/priv bits %d, credentials say %d" % (msg["flags"] & 3, want_flags))
@@ -240,6 +245,8 @@ def run_case(R, level, op, args, community="public", ctx_name=b"", ctx_engine=b"
     if level.startswith("v3"):
         ckw = {"context_name": ctx_name, "engine_id": ctx_engine}
     akw = {"any_context": True}
+    if args.get("agent_max_size"):
+        akw["max_size"] = args["agent_max_size"]
     if args.get("agent_engine") is not None:
         akw["engine_id"] = args["agent_engine"]
     w = World(level, db, community=community, client_kwargs=ckw, agent_kwargs=akw)
@@ -451,6 +458,9 @@ def run(R):
         if level.startswith("v3") and rng.random() < 0.25:
             # agent engine ids with runs of zero octets (NUL-padded text ids), short and long
             args["agent_engine"] = rng.choice((b"\x80\x00\x1f\x88\x04ab" + b"\x00" * rng.choice((11, 12, 13, 25)), b"\x80\x00\x00\x00\x05", bytes([0x80]) + bytes(rng.getrandbits(8) for _ in range(31))))
+        if level.startswith("v3") and rng.random() < 0.4:
+            # what the agent announces as ITS receive limit
+            args["agent_max_size"] = rng.choice((484, 1472, 8192, 65000, 2**31 - 1))
         via = None
         if rng.random() < 0.3:
             via = (rng.choice(("configure", "reconfigure")), rng.choice([lv for lv in ("v1", "v2c", "v3-noauth", "v3-md5", "v3-sha1-priv") if lv != level]))
